@@ -50,6 +50,14 @@ type c07Node struct {
 	start, stop uint64
 	calls       int
 	fail        bool
+	newest      uint64 // the node's own tip: at or above the follower's (blocks the follower has not processed yet)
+}
+
+// NewestSha: the node's chain tip. The rescan must not take its bounds from it - what lies above the follower's tip is
+// the follower's to process - so it is an arbitrary height at or above the follower's.
+func (n *c07Node) NewestSha() (*wire.Hash, uint64, error) {
+	var h wire.Hash
+	return &h, n.newest, nil
 }
 
 var errC07Node = errors.New("verif: chain index error")
@@ -75,7 +83,7 @@ type c07State struct {
 func c07Setup(cursor, best uint64) *c07State {
 	st := txmgr.VerifNewStoresWithKeystoreManager([]byte("DJr6BomK"))
 	keystore.VerifAddWallet(st.Ks, c07Wallet)
-	node := &c07Node{}
+	node := &c07Node{newest: best + uint64(rt.NondetU8()&3)}
 	w := &WalletManager{config: &config.Config{Wallet: config.NewDefWalletConfig()}, db: st.DB, chainParams: config.ChainParams,
 		ksmgr: st.Ks, bucketMeta: st.Meta, utxoStore: st.Utxo, txStore: st.Tx, syncStore: st.Sync, chainFetcher: node}
 	h := &NtfnsHandler{walletMgr: w, mempool: map[wire.Hash]struct{}{}, expiredMempool: map[uint64]map[wire.Hash]struct{}{}}
